@@ -66,6 +66,7 @@ func runOnce(w workload, order []int, devs []deviation, crashSnap bool) runResul
 	point := 0
 	oi := 0
 	advanced := false
+	stalled := false
 	var crashed []int
 	decide := func(defKind string, alts []string) (string, int) {
 		// record the alternatives at this point, then apply a deviation if one is placed here
@@ -113,6 +114,11 @@ func runOnce(w workload, order []int, devs []deviation, crashSnap bool) runResul
 				alts = append(alts, "advance:0")
 			}
 		}
+		if oi < len(order) && !stalled {
+			// the client's connection handler is held at its next lock operation after it has handed
+			// over the proposal, until the end of the run (a goroutine that is simply not scheduled)
+			alts = append(alts, "stall:0")
+		}
 		def := "end"
 		switch {
 		case s.anyReady() >= 0:
@@ -154,6 +160,16 @@ func runOnce(w workload, order []int, devs []deviation, crashSnap bool) runResul
 					break
 				}
 			}
+		case "stall":
+			stalled = true
+			for oi < len(order) {
+				ci := order[oi]
+				oi++
+				if s.submitStalled(ci) {
+					res.Events = append(res.Events, fmt.Sprintf("submit(c%d %q) HANDLER-HELD-AT-ITS-NEXT-LOCK", ci, s.clients[ci].prog[s.clients[ci].next-1]))
+					break
+				}
+			}
 		case "drop":
 			if arg < len(s.pool) {
 				res.Events = append(res.Events, fmt.Sprintf("DROP(%s->n%d)", s.pool[arg].Type, s.pool[arg].To))
@@ -186,6 +202,8 @@ func runOnce(w workload, order []int, devs []deviation, crashSnap bool) runResul
 			break
 		}
 	}
+	s.stabilise(400)
+	s.finishGate()
 	s.stabilise(400)
 	s.takePanics()
 	res.Points = point
@@ -245,6 +263,10 @@ func check(s *sim, w workload, res *runResult) {
 	}
 	if len(s.shadowViol) > 0 {
 		add("not-durable", s.shadowViol[0])
+		return
+	}
+	if len(s.replyLost) > 0 {
+		add("reply-lost", s.replyLost[0])
 		return
 	}
 	var ops []lin.Op
